@@ -38,7 +38,17 @@ func (x *Exec) doCall(st *State, in *ssa.Call) bool {
 		}
 		if c == nil {
 			if x.P.inModule(f) {
-				x.unsup(pos, "call to %s, which has no contract", name)
+				// a module function without a contract (e.g. a freshly extracted
+				// helper) is executed in place
+				if len(f.Blocks) == 0 {
+					x.unsup(pos, "call to %s, which has neither contract nor body", name)
+				}
+				for _, fr := range st.frames {
+					if fr.fn == f {
+						x.unsup(pos, "recursive call to %s, which has no contract", name)
+					}
+				}
+				return x.inlineCall(st, in, f, args)
 			}
 			// external function without contract: total, no panic, no effect on
 			// memory visible to the module (assumption, listed)
@@ -65,13 +75,7 @@ func (x *Exec) inlineCall(st *State, in *ssa.Call, f *ssa.Function, args []Val) 
 	if len(f.Blocks) == 0 {
 		x.unsup(in.Pos(), "transparent callee %s has no body", f.Name())
 	}
-	for _, b := range f.Blocks {
-		for _, s := range b.Succs {
-			if s.Dominates(b) {
-				x.unsup(in.Pos(), "transparent callee %s contains a loop", f.Name())
-			}
-		}
-	}
+	x.findLoopsFor(f, x.P.Specs.Contracts[qualName(f)])
 	if len(st.frames) > 8 {
 		x.unsup(in.Pos(), "inlining too deep")
 	}
@@ -127,7 +131,7 @@ func (x *Exec) assumeWf(st *State, v Val) {
 		return
 	}
 	if v.Ty != nil && !v.T.IsZero() {
-		st.assume(x.wf(v.T, v.Ty))
+		st.assume(x.wfA(st, v.T, v.Ty))
 	}
 }
 
@@ -287,6 +291,10 @@ func (x *Exec) applyContract(st *State, name string, c *Contract, f *ssa.Functio
 	if c.Pure {
 		r = x.pureApp(st, name, f, c, args, nil, rt)
 	} else {
+		// the callee may allocate: the frontier advances by an unknown amount
+		nx := x.fresh("next", SInt)
+		st.assume(Le(x.frontier(st), nx))
+		st.next = nx
 		r = x.freshVal("ret", rt)
 		// frame: havoc what the callee may assign
 		for _, a := range c.Assigns {
@@ -390,7 +398,9 @@ func (x *Exec) havocAssign(st *State, env *Env, a *Clause) {
 		if isStruct(f.Ty) {
 			x.havocStruct(st, f.Ty, x.subAddr(si, i, addr))
 		} else {
-			x.writeLoc(st, &Loc{Kind: "field", Heap: fieldHeap(si, i), Addr: addr, Sort: f.Sort}, x.fresh("hv", f.Sort))
+			hv := x.fresh("hv", f.Sort)
+			st.assume(x.wfA(st, hv, f.Ty))
+			x.writeLoc(st, &Loc{Kind: "field", Heap: fieldHeap(si, i), Addr: addr, Sort: f.Sort}, hv)
 		}
 	case ECall:
 		switch e.Fn {
@@ -445,7 +455,9 @@ func (x *Exec) havocStruct(st *State, t types.Type, addr Term) {
 			x.havocStruct(st, f.Ty, x.subAddr(si, i, addr))
 		case isArray(f.Ty):
 		default:
-			x.writeLoc(st, &Loc{Kind: "field", Heap: fieldHeap(si, i), Addr: addr, Sort: f.Sort}, x.fresh("hv", f.Sort))
+			hv := x.fresh("hv", f.Sort)
+			st.assume(x.wfA(st, hv, f.Ty))
+			x.writeLoc(st, &Loc{Kind: "field", Heap: fieldHeap(si, i), Addr: addr, Sort: f.Sort}, hv)
 		}
 	}
 }
@@ -763,6 +775,7 @@ func (x *Exec) doInvoke(st *State, in *ssa.Call) {
 		h := App(f, SInt, recv.T)
 		x.declare("brk!", SInt)
 		st.assume(And(Ne(h, Int(0)), Lt(h, Term{"brk!", SInt})))
+		x.frontier(st)
 		st.events = append(st.events, Event{"Header", []Val{recv}})
 		x.setVal(st, in, Val{T: h, Ty: in.Type()})
 	case "http.ResponseWriter.WriteHeader":
